@@ -349,6 +349,7 @@ def translate_update_min(src):
 if __name__=='__main__':
     import os
     repo,outdir=sys.argv[1],sys.argv[2]
+    os.makedirs(outdir, exist_ok=True)
     try:
         tt=translate(open(os.path.join(repo,'mosaik/tiered_time.py')).read())
         um=translate_update_min(open(os.path.join(repo,'mosaik/scenario.py')).read())
